@@ -311,16 +311,121 @@ Proof.
   apply is_prefix_app. exists (t ++ u). now rewrite app_assoc.
 Qed.
 
+(* ---------- exact mode (patriciaTree.match; not used by the listener) *)
+Lemma bytes_eqb_cancel p r b : bytes_eqb (p ++ r) (p ++ b) = bytes_eqb r b.
+Proof. induction p as [|x p IH]; simpl; [reflexivity|]. now rewrite Z.eqb_refl, IH. Qed.
+
+Lemma bytes_eqb_is_prefix a b : bytes_eqb a b = true -> is_prefix a b = true.
+Proof. intros H. apply bytes_eqb_eq in H. subst. apply is_prefix_app. exists []. now rewrite app_nil_r. Qed.
+
+Lemma any_equal_map_app p rest b' : any_equal (map (app p) rest) (p ++ b') = any_equal rest b'.
+Proof.
+  unfold any_equal. induction rest as [|r rest IH]; simpl; [reflexivity|].
+  now rewrite bytes_eqb_cancel, IH.
+Qed.
+
+Lemma any_equal_not_prefix p rest b : is_prefix p b = false -> any_equal (map (app p) rest) b = false.
+Proof.
+  intros H. unfold any_equal. induction rest as [|r rest IH]; simpl; [reflexivity|].
+  rewrite IH, orb_false_r. destruct (bytes_eqb (p ++ r) b) eqn:E; [|reflexivity].
+  apply bytes_eqb_is_prefix, is_prefix_app_l in E. congruence.
+Qed.
+
+Lemma any_equal_nil rest : any_equal rest [] = has_empty rest.
+Proof.
+  unfold any_equal, has_empty. induction rest as [|r rest IH]; simpl; [reflexivity|].
+  rewrite IH. destruct r; reflexivity.
+Qed.
+
+Lemma any_equal_tails c b rest : any_equal rest (c :: b) = any_equal (tails_of c rest) b.
+Proof.
+  unfold any_equal, tails_of. induction rest as [|r rest IH]; simpl; [reflexivity|].
+  rewrite existsb_app, IH. destruct r as [|x r]; simpl; [reflexivity|].
+  destruct (Z.eqb x c); simpl; [now rewrite orb_false_r | reflexivity].
+Qed.
+
+Theorem new_node_match_exact : forall f strs b,
+  strs <> [] -> (max_len strs < f)%nat ->
+  pt_match (new_node f strs) b false = any_equal strs b.
+Proof.
+  induction f as [|f IH]; intros strs b NE LT; [lia|].
+  destruct strs as [|s1 [|s2 tl]]; [congruence| |].
+  - cbn [new_node]. rewrite pt_match_unfold. cbv zeta. rewrite prefix_check.
+    unfold any_equal. cbn [existsb]. rewrite orb_false_r.
+    destruct (is_prefix s1 b) eqn:EP; cbn [negb].
+    2:{ destruct (bytes_eqb s1 b) eqn:E; [|reflexivity]. apply bytes_eqb_is_prefix in E. congruence. }
+    pose proof (is_prefix_split _ _ EP) as Eb. set (b' := skipn (length s1) b) in *.
+    assert (length b = (length s1 + length b')%nat) as Lb by (rewrite Eb, app_length; reflexivity).
+    cbn [andb orb]. replace (Nat.min (length s1) (length b)) with (length s1) by lia.
+    destruct b' as [|c b''].
+    + rewrite app_nil_r in Eb. rewrite <- Eb, Nat.eqb_refl, bytes_eqb_refl. reflexivity.
+    + cbn [length] in Lb.
+      replace (Nat.eqb (length s1) (length b)) with false by (symmetry; apply Nat.eqb_neq; lia).
+      replace (Nat.leb (length b) (length s1)) with false by (symmetry; apply Nat.leb_gt; lia).
+      assert (nth_error b (length s1) = Some c) as -> by (rewrite Eb, nth_error_app2, Nat.sub_diag by lia; reflexivity).
+      cbn [look]. symmetry. apply bytes_eqb_neq. intros C. apply (f_equal (@length Z)) in C. lia.
+  - set (strs := s1 :: s2 :: tl) in *.
+    assert (new_node (S f) strs =
+            PT (fst (split_prefix strs)) (has_empty (snd (split_prefix strs)))
+               (map (fun kv => (fst kv, new_node f (snd kv))) (groups (snd (split_prefix strs))))) as -> by reflexivity.
+    pose proof (split_prefix_spec strs) as SP.
+    set (p := fst (split_prefix strs)) in *. set (rest := snd (split_prefix strs)) in *.
+    rewrite pt_match_unfold. cbv zeta. rewrite prefix_check.
+    destruct (is_prefix p b) eqn:EP; cbn [negb].
+    2:{ rewrite SP. symmetry. now apply any_equal_not_prefix. }
+    pose proof (is_prefix_split _ _ EP) as Eb. set (b' := skipn (length p) b) in *.
+    assert (any_equal strs b = any_equal rest b') as ->.
+    { rewrite SP, Eb. apply any_equal_map_app. }
+    cbn [orb].
+    assert (length b = (length p + length b')%nat) as Lb by (rewrite Eb, app_length; reflexivity).
+    replace (Nat.min (length p) (length b)) with (length p) by lia.
+    destruct b' as [|c b''] eqn:Eb'.
+    { cbn [length] in Lb. replace (Nat.eqb (length p) (length b)) with true by (symmetry; apply Nat.eqb_eq; lia).
+      rewrite andb_true_r, any_equal_nil.
+      destruct (has_empty rest); [reflexivity|].
+      replace (Nat.leb (length b) (length p)) with true by (symmetry; apply Nat.leb_le; lia). reflexivity. }
+    cbn [length] in Lb.
+    replace (Nat.eqb (length p) (length b)) with false by (symmetry; apply Nat.eqb_neq; lia).
+    rewrite andb_false_r.
+    replace (Nat.leb (length b) (length p)) with false by (symmetry; apply Nat.leb_gt; lia).
+    assert (nth_error b (length p) = Some c) as ->.
+    { rewrite Eb, nth_error_app2, Nat.sub_diag by lia. reflexivity. }
+    assert (skipn (S (length p)) b = b'') as ->.
+    { rewrite Eb. replace (S (length p)) with (length p + 1)%nat by lia.
+      rewrite skipn_app, skipn_all2 by lia. replace (length p + 1 - length p)%nat with 1%nat by lia. reflexivity. }
+    rewrite (look_map c b'' false (new_node f)), assoc_groups.
+    rewrite (any_equal_tails c b'' rest).
+    destruct (tails_of c rest) as [|t0 ts] eqn:ET; [reflexivity|].
+    rewrite <- ET. apply IH.
+    + rewrite ET; discriminate.
+    + assert (tails_of c rest <> []) as NT by (rewrite ET; discriminate).
+      pose proof (max_len_tails c rest NT). pose proof (max_len_map_app p rest). rewrite <- SP in H0. lia.
+Qed.
+
+Theorem ptree_match_exact_is_member : forall strs b,
+  strs <> [] -> pt_match (new_tree strs) b false = any_equal strs b.
+Proof.
+  intros strs b NE. unfold new_tree, max_depth. apply new_node_match_exact; [exact NE | lia].
+Qed.
+
 (* the oracle of the tree stream accepts the model *)
+Lemma ptree_empty_exact b : pt_match (new_tree []) b false = is_nil b.
+Proof.
+  unfold new_tree. cbn [new_node max_depth]. rewrite pt_match_unfold. cbv zeta.
+  destruct b as [|c b]; reflexivity.
+Qed.
+
 Theorem ptree_model_passes : forall strs inputs, ok_ptree strs inputs (run_ptree strs inputs) = true.
 Proof.
   intros strs inputs. unfold ok_ptree, run_ptree. rewrite map_length, Nat.eqb_refl. cbn [andb].
   apply forallb_forall. intros [i [p e]] Hin. cbn [fst snd].
-  assert (p = pt_match (new_tree strs) i true) as ->.
+  assert (p = pt_match (new_tree strs) i true /\ e = pt_match (new_tree strs) i false) as [-> ->].
   { clear -Hin. induction inputs as [|x xs IH]; simpl in Hin; [tauto|].
-    destruct Hin as [H|H]; [inversion H; reflexivity | now apply IH]. }
+    destruct Hin as [H|H]; [inversion H; split; reflexivity | now apply IH]. }
   destruct strs as [|s strs].
-  - fold (tree_match_prefix [] i). rewrite ptree_empty_matches_all. reflexivity.
-  - fold (tree_match_prefix (s :: strs) i). rewrite ptree_match_is_prefix_exists by discriminate.
-    cbn [is_nil orb]. apply eqb_reflx.
+  - fold (tree_match_prefix [] i). rewrite ptree_empty_matches_all, ptree_empty_exact.
+    cbn [is_nil orb]. now rewrite !eqb_reflx.
+  - fold (tree_match_prefix (s :: strs) i).
+    rewrite ptree_match_is_prefix_exists, ptree_match_exact_is_member by discriminate.
+    cbn [is_nil orb]. now rewrite !eqb_reflx.
 Qed.
